@@ -65,7 +65,10 @@ Regions(l, f, props) ==
 
 (* ---------------- the reader state machine ---------------- *)
 SignInclude(l) == [include |-> IF l.sign = "-" THEN "0" ELSE "1", zz |-> "zz"]
-Skipped(l) == l.k \in {"comment", "blank", "badshape", "badword"}
+(* an unsupported shape (vector, panda, ...) is skipped with a warning; as a member of a composite it still carries the composite along    *)
+(* ("||") or, as its last member, ends it: the regions after it are not members                                                       *)
+EndsComposite(l) == l.k = "badshape" /\ ~l.cont
+Skipped(l) == l.k \in {"comment", "blank", "badword"} \/ (l.k = "badshape" /\ l.cont)
 Warns(l) == l.k \in {"badshape", "badword"}
 ReaderState == [frame : Supported \cup {NoFrame}]
 St(frame, gmeta, cmeta, out, warn) == [frame |-> frame, gmeta |-> gmeta, cmeta |-> cmeta, out |-> out, warn |-> warn]
@@ -78,6 +81,7 @@ StepLine(s, l) ==
                         ELSE [s EXCEPT !.frame = NoFrame, !.warn = s.warn + 1]          \* unsupported frame: warned, frame cleared
     [] l.k = "global" -> [s EXCEPT !.gmeta = Override(s.gmeta, l.props)]
     [] Skipped(l) -> IF Warns(l) THEN [s EXCEPT !.warn = s.warn + 1] ELSE s
+    [] EndsComposite(l) -> [s EXCEPT !.warn = s.warn + 1, !.cmeta = NoProps]
     [] l.k = "composite" -> IF s.frame = NoFrame THEN [s EXCEPT !.warn = s.warn + 1]
                             ELSE [s EXCEPT !.cmeta = l.props]
     [] l.k = "region" ->
